@@ -7,6 +7,7 @@ AttrChoicesSmall == {
     << [a |-> "const", n |-> "title", v |-> "k1"] >>,
     << [a |-> "expr", n |-> "data-x", e |-> "E1"] >>,
     << [a |-> "cssclass"] >>,
+    << [a |-> "classmix"] >>,
     << [a |-> "url", u |-> "U2"] >>,
     << [a |-> "cond", c |-> "C1", then |-> << [a |-> "const", n |-> "title", v |-> "k1"] >>, else |-> << >>] >> }
 AttrChoicesFull == {
@@ -21,6 +22,8 @@ AttrChoicesFull == {
     << [a |-> "classkv", c |-> "C1"], [a |-> "boolc", n |-> "hidden"] >>,
     << [a |-> "cssclass"] >>,
     << [a |-> "cssclassx"], [a |-> "const", n |-> "title", v |-> "k1"] >>,
+    << [a |-> "classmix"] >>,
+    << [a |-> "scriptcall2", n |-> "onclick"], [a |-> "boolc", n |-> "hidden"] >>,
     << [a |-> "scriptcall", n |-> "onclick"], [a |-> "const", n |-> "title", v |-> "k1"] >>,
     << [a |-> "scriptcall", n |-> "onclick"], [a |-> "scriptcall", n |-> "onfocus"] >>,
     << [a |-> "cond", c |-> "C1", then |-> << [a |-> "const", n |-> "title", v |-> "k1"] >>, else |-> << [a |-> "scriptcall", n |-> "onclick"] >>] >>,
